@@ -131,12 +131,18 @@ class Boom(Exception):
     pass
 
 
+class OddError(BaseException):
+    pass
+
+
 def _raise(out, rnd):
     if out == "raiseCRLF":
         raise rnd.choice([Boom("bad\r\n20 text/gemini\r\nINJECTED"), ValueError("x\ny"), KeyError("a\rb"),
                           RuntimeError("L" * 3000 + "\r\n")])
+    # "exception of any type": also those that do not derive from Exception (a handler awaiting something that was
+    # cancelled ends in CancelledError; GeneratorExit; a BaseException subclass of the application's own)
     raise rnd.choice([Boom("boom"), ValueError("nope"), OSError(5, "io"), RuntimeError(""), KeyError("k"),
-                      ZeroDivisionError(), AssertionError("a"), LookupError("l")])
+                      ZeroDivisionError(), AssertionError("a"), LookupError("l"), asyncio.CancelledError(), GeneratorExit(), OddError("odd")])
 
 
 def _num(n, rnd):
